@@ -744,18 +744,14 @@ def rule_PU(run: Run) -> RuleResult:
     st = opt.methods.get("set")
     if st is None:
         raise AnalysisError("Option.set not found")
-    amap = astu.single_assign_map(st)
-    ok = False
-    detail = ""
-    for r in astu.walk_no_nested(st):
-        if isinstance(r, ast.Return) and r.value is not None:
-            v = astu.expand_locals(r.value, {k: x for k, x in amap.items() if not isinstance(x, ast.Dict)})
-            detail = ast.unparse(v)
-            if isinstance(v, ast.Call) and astu.short_name(v) == "mix" and len(v.args) == 2 and ast.unparse(v.args[0]) == astu.param_names(st)[0] and isinstance(v.args[1], ast.Name):
-                newname = v.args[1].id
-                alloc = isinstance(amap.get(newname), ast.Dict) and not amap[newname].keys
-                writes = [c for c in astu.calls_in(st) if astu.short_name(c) == "set_dotted_key"]
-                ok = alloc and len(writes) == 1 and ast.unparse(writes[0].args[0]) == "self.key" and ast.unparse(writes[0].args[1]) == astu.param_names(st)[1] and ast.unparse(writes[0].args[2]) == newname
+    # read off the returned term (whatever private helper builds the one-entry dictionary): mix(<caller's options>, <a dictionary of the
+    # function's own holding exactly the entry key -> value, set by dotted key>)
+    from .interp import analyse_function as _af
+    sps = [p for p in _af(Ctx(repo), opt.module, st, cls=opt) if p.status == "ret"]
+    pn_ = astu.param_names(st)
+    want_ = f"call:confectioner.mix({pn_[0]},dict(dotted-item(attr:key(self),{pn_[1]})))" if len(pn_) >= 2 else ""
+    ok = bool(sps) and bool(want_) and all(p.ret is not None and p.ret.key() == want_ for p in sps)
+    detail = "; ".join(sorted({p.ret.key()[:120] if p.ret is not None else "None" for p in sps}))
     res.add("labrea.option.Option.set:returns mix(options, {key: value}) built in a fresh dictionary", ok, opt.module.relpath, st.lineno, detail, nec)
     return res
 
